@@ -136,7 +136,10 @@ func VerifC02One() { c02Run(c02Queries[2:], []int{0, 2}, 1) }
 func VerifC02Mutate() { c02Run(c02Queries[2:], []int{3}, 0) }
 
 // thorough: subscribe a, a mutation, and a racing data change
-func VerifC02MutateWrite() { c02Run(c02Queries[2:], []int{3}, 1) }
+func VerifC02MutateWrite() {
+	c02Ops = []int{0, 2}
+	c02Run(c02Queries[2:], []int{3}, 1)
+}
 
 // thorough: all three queries, any second message but a second subscription, one data change
 func VerifC02OneAll() { c02Run(c02Queries, []int{0, 2}, 1) }
